@@ -262,6 +262,7 @@ def element_range_asserts(ctx, prog, floor=5):
     """the checked forms of the position-array operations refuse a symbol outside the alphabet: every release-live `assert!` over the
     elements of a slice parameter is `all(|x| x < ALPHABET_SIZE)` - `<`, against 64 (a `<=` lets 64 through to an unchecked table index)"""
     n = 0
+    nlen = [0]
     for f in entries(prog):
         if "BlockHashPositionArrayImpl" not in f.path:
             continue
@@ -270,6 +271,14 @@ def element_range_asserts(ctx, prog, floor=5):
             if kind != "live" or not truth:
                 continue
             e = strip(e)
+            if e[0] == "bin" and e[1] in ("Lt", "Le", "Gt", "Ge") and "::len(" in re.sub(r"::<[^()]*>\(", "(", canon(e)):
+                # the length contract of the checked forms: a slice of at most 64 symbols (`<` would refuse a full block hash)
+                from .features import _cmp_of
+                op, a_, b_ = _cmp_of(e)
+                okl = op == "Le" and strip(b_)[0] == "const" and strip(b_)[1] == 64 and "::len(" in re.sub(r"::<[^()]*>\(", "(", canon(strip(a_)))
+                ctx.ob(R, "%s: the length assert is `len <= 64`" % f.short, okl, "assert: %s" % show(e)[:80], f.loc(sp))
+                nlen[0] += 1
+                continue
             if not (e[0] == "call" and e[1].split("::")[-1] == "all" and len(e[2]) == 2):
                 continue
             n += 1
@@ -279,3 +288,4 @@ def element_range_asserts(ctx, prog, floor=5):
             ok = re.match(r"^Lt\(\(?param:\w+( as usize\))?,(?:[\w:]*=)?64\)$", body) is not None
             ctx.ob(R, "%s: the element assert is `all(|x| x < 64)`" % f.short, ok, "closure body: %s" % body[:100], f.loc(sp))
     ctx.floor(R, n, floor, "element range asserts in the checked position-array forms")
+    ctx.floor(R, nlen[0], 5, "length asserts in the checked position-array forms")
